@@ -355,17 +355,17 @@ def r4_dispatch_total(ctx):
                         name, key='no-serialize_to_python')
     f = p.func(SER, 'serialize_to_python')
     g = ctx.cfg(f)
-    none_tests = [t for t in g.nodes if t.kind == 'test' and
-                  'serialization_cls is None' in unparse(t.ast)]
+    from ..util import none_edges
+    none_tests = none_edges(g, 'serialization_cls')
     if none_tests:
-        t = none_tests[0]
-        r = g.reachable([s for s, l in t.succ if l == 'T'])
+        t, lab = none_tests[0]
+        r = g.reachable([s for s, l in t.succ if l == lab])
         rets = [n for n in g.nodes if n.id in r and n.kind == 'stmt' and
                 isinstance(n.ast, ast.Return)]
         calls_ok = all(any(g.guarded_by(n, ct, 'T') for ct in g.nodes
                            if ct.kind == 'test' and
                            'callable' in unparse(ct.ast)) for n in rets
-                       if g.guarded_by(n, t, 'T'))
+                       if g.guarded_by(n, t, lab))
         raises = any(n.kind == 'stmt' and isinstance(n.ast, ast.Raise) and
                      n.id in r for n in g.nodes)
         if raises and calls_ok:
